@@ -91,7 +91,7 @@ structure W where
   faults : List Bool
   trace : List Ev := []          -- newest first
   cur : Option Name := none      -- `_file_path` (`_file is not None` iff `some`)
-  closed : Bool := false         -- `_file` is a file object whose close() raised: it is closed for good
+  closed : Bool := false         -- `_file` still refers to a file object whose close() raised: closed for good
   detached : Bool := false       -- the handle's inode is no longer what the path names
   mismatch : Bool := false       -- recorded (dev, ino) differ from the path's (watch)
   nextId : Nat := 0
@@ -143,13 +143,16 @@ def createFile (cfg : Cfg) (n : Name) : M Unit := do
     modW fun w => { w with mismatch := false }
 
 def closeStep : CloseStep → M Unit
+  | .bindFile => pure ()            -- `file = self._file`
   | .flush => do
       let w ← getW
       tick .flush
       if w.closed then M.throw .valueError
   | .close => do
-      -- a failing close() still closes the Python file object
-      modW fun w => { w with closed := true }
+      -- a failing close() still closes the Python file object; whether the sink is left holding that
+      -- closed object depends on whether `_file` has been forgotten BEFORE this statement
+      let w ← getW
+      modW fun w' => { w' with closed := w.cur.isSome }
       tick .close
       modW fun w => { w with closed := false }
   | .resetFile => modW fun w => { w with cur := none, closed := false, detached := false }
